@@ -66,7 +66,8 @@ func (ch *Checker) balance(a *model.Assertion, bal *model.Balance) error {
 		return Error{Directive: a, Msg: "account is not open"}
 	}
 	position := amounts.AccountCommodityKey(bal.Account, bal.Commodity)
-	if ch.NoCheck {
+	if ch.NoCheck || !bal.Account.IsAL() {
+		// positions are tracked for asset and liability accounts only
 		return nil
 	}
 	if qty := ch.quantities[position]; !qty.Equal(bal.Quantity) {
